@@ -11,14 +11,21 @@ use tracing::{debug, error, Instrument};
 /// Used for on_start, message handler, on_stop.
 macro_rules! run_with_actor_scope {
     ($actor_id:expr, $fut:expr) => {{
-        #[cfg(feature = "deadlock-detection")]
-        {
-            crate::CURRENT_ACTOR.scope($actor_id, $fut).await
-        }
-        #[cfg(not(feature = "deadlock-detection"))]
-        {
-            $fut.await
-        }
+        #[cfg(rsactor_verif)]
+        let __verif_hook = crate::__verif::HookGuard::enter(&$actor_id, stringify!($fut));
+        let __scope_out = {
+            #[cfg(feature = "deadlock-detection")]
+            {
+                crate::CURRENT_ACTOR.scope($actor_id, $fut).await
+            }
+            #[cfg(not(feature = "deadlock-detection"))]
+            {
+                $fut.await
+            }
+        };
+        #[cfg(rsactor_verif)]
+        __verif_hook.exit(crate::__verif::Outcome::code(&__scope_out));
+        __scope_out
     }};
 }
 
@@ -26,14 +33,19 @@ macro_rules! run_with_actor_scope {
 /// Used for tokio::select! branch expressions (on_run).
 macro_rules! with_actor_scope {
     ($actor_id:expr, $fut:expr) => {{
-        #[cfg(feature = "deadlock-detection")]
-        {
-            crate::CURRENT_ACTOR.scope($actor_id, $fut)
-        }
-        #[cfg(not(feature = "deadlock-detection"))]
-        {
-            $fut
-        }
+        let __scope_fut = {
+            #[cfg(feature = "deadlock-detection")]
+            {
+                crate::CURRENT_ACTOR.scope($actor_id, $fut)
+            }
+            #[cfg(not(feature = "deadlock-detection"))]
+            {
+                $fut
+            }
+        };
+        #[cfg(rsactor_verif)]
+        let __scope_fut = crate::__verif::RunFut::new(&$actor_id, __scope_fut);
+        __scope_fut
     }};
 }
 
